@@ -128,6 +128,7 @@ type scenario struct {
 	IdleMs           int           `json:"connections_idle_ms_before_shutdown"` // with requests_per_connection = 0: clients that only sit there
 	RawPeer          bool          `json:"tcp_peer_that_never_starts_the_tls_handshake"`
 	SecondShutdownMs int           `json:"second_shutdown_call_after_ms"` // a second, overlapping Shutdown call (admin command, then a signal)
+	BusyConns        int           `json:"connections_with_requests"`     // > 0: only the first that many connections send requests, the others just sit there
 	Unbuffered       bool          `json:"pool_queue_capacity_0"`         // receive loops hand their requests over to the workers directly
 }
 
@@ -179,7 +180,7 @@ func runScenario(sc scenario) {
 		conns[c] = cn
 		results[c] = &connResult{responses: map[int]int{}}
 		var stream []byte
-		for s := 0; s < sc.PerConn; s++ {
+		for s := 0; s < sc.PerConn && (sc.BusyConns == 0 || c < sc.BusyConns); s++ {
 			b := make([]byte, 9)
 			binary.BigEndian.PutUint32(b, uint32(c))
 			binary.BigEndian.PutUint32(b[4:], uint32(s))
@@ -225,6 +226,9 @@ func runScenario(sc scenario) {
 		}
 	}
 	total := sc.Conns * sc.PerConn
+	if sc.BusyConns > 0 {
+		total = sc.BusyConns * sc.PerConn
+	}
 	// wait until every request has been framed by the server (read from its connection)
 	framedAll := waitFor(func() bool {
 		n := 0
@@ -548,6 +552,15 @@ func main() {
 			}
 			id++
 			scs = append(scs, scenario{ID: id, Pool: pool, Conns: 3, PerConn: 1, Script: "all-at-once", CtxMs: 4000, Delay: 200 * time.Millisecond, DelayMs: 200, TLS: true, RawPeer: true})
+			// many connections that have been idle for a while next to one with a request in flight: the
+			// shutdown is over when the busy one has drained, whichever connection the poller looks at last
+			for k := 0; k < 2; k++ {
+				id++
+				scs = append(scs, scenario{ID: id, Pool: pool, Conns: 16, BusyConns: 1, PerConn: 1, Script: "all-at-once", CtxMs: 8000, Delay: 1500 * time.Millisecond, DelayMs: 1500, IdleMs: 2300})
+			}
+			// a handler that finishes well after the close notice went out (more than 3 s later)
+			id++
+			scs = append(scs, scenario{ID: id, Pool: pool, Conns: 2, PerConn: 1, Script: "all-at-once", CtxMs: 9000, Delay: 4300 * time.Millisecond, DelayMs: 4300})
 			// a second Shutdown call while the first is draining (an admin command followed by a signal)
 			id++
 			scs = append(scs, scenario{ID: id, Pool: pool, Conns: 3, PerConn: 2, Script: "all-at-once", CtxMs: 6000, Delay: 1200 * time.Millisecond, DelayMs: 1200, SecondShutdownMs: 250})
